@@ -184,24 +184,29 @@ Print Assumptions C12_resolution_completes_on_add.
         handler, exactly what the code tests (>= 24 bytes in the first view, type 135, target has an
         endpoint on the NIC)                                      C12_ndp_advert_iff_target_local   (full, handler level)
         whole inbound path: only if destination and target are NIC addresses
+                                                                  C12_ndp_deliver_answer_iff (in terms of the NIC filter),
                                                                   C12_ndp_deliver_answer_partial    (partial)
                                                                   C12_ndp_foreign_destination_silent
         NOT answered when sent, as RFC 4861 prescribes, to the solicited-node multicast address of an own
         address that the application did not add to the NIC       C12_ndp_answers_iff_target_own_refuted
-        answered for a target that is a joined multicast group, advertisement sourced from the group
-        address                                                   C12_ndp_multicast_target_refuted
+        (this is the theorem behind the known finding C12-ndp-solicited-node-not-joined)
+        deviations from RFC 4861, NOT from the property text:
+        answered for a target that is a multicast group the NIC holds, advertisement sourced from the
+        group address                                             C12_ndp_multicast_target_refuted
         answered without any RFC 4861 7.1.1 validity check (hop limit, code, checksum)
                                                                   C12_ndp_validity_checks_refuted
    "with its own link address, addressed to the requester"        C12_ndp_advert_fields, C12_ndp_advert_readback,
         checksum verifies against the RFC 2460 pseudo-header      C12_ndp_advert_checksum,
         the IPv6 header around it                                 C12_ndp_frame
-        a probe from the unspecified address is answered TO the unspecified address and recorded
+        (RFC 4861 deviation, not of the property text) a probe from the unspecified address is answered
+        TO the unspecified address and recorded
                                                                   C12_ndp_unspecified_source_refuted
    "learns the sender's mapping from replies and from requests addressed to it", and nothing else
                                                                   C12_ndp_learns_from_advert, C12_ndp_learns_iff,
                                                                   C12_ndp_ignored
-        the mapping is (address, link-layer source of the frame); the link-layer address OPTIONS are
-        never read                                                C12_ndp_learns_stated_address_refuted
+        the mapping is (address, link-layer source of the frame), as the property text has it; the
+        link-layer address OPTIONS are never read (RFC 4861 deviation, not of the property text)
+                                                                  C12_ndp_learns_stated_address_refuted
    never a panic on any input                                     C12_ndp_handle_never_panics, C12_ndp_deliver_never_panics
    "a request is broadcast" (our own solicitation: solicited-node multicast destination, source
    link-layer option, checksum; Ethernet destination ff:ff:ff:ff:ff:ff, not 33:33:ff:xx:xx:xx)
@@ -295,6 +300,13 @@ Theorem C12_ndp_deliver_answer_partial : forall locals myMAC srcMAC views p l,
     l = [(src, srcMAC)].
 Proof. exact nd_deliver_answer_partial. Qed.
 Print Assumptions C12_ndp_deliver_answer_partial.
+
+Theorem C12_ndp_deliver_answer_iff : forall locals myMAC srcMAC views,
+  (exists p l, nd_deliver locals myMAC srcMAC views = NdDone (Some p) l) <->
+  (exists r vs, nic6_deliver locals views = Some (NICMP r vs) /\
+     nd_is_solicit (vv_first vs) /\ In (nd_target (vv_first vs)) locals).
+Proof. exact nd_deliver_answer_iff. Qed.
+Print Assumptions C12_ndp_deliver_answer_iff.
 
 Theorem C12_ndp_foreign_destination_silent : forall locals myMAC srcMAC views dst,
   ipv6_destinationAddress (vv_first views) = Some dst -> ~ In dst locals ->
